@@ -151,7 +151,11 @@ def main():
     ck.cov['trusted_base'] = ['Coq 8.16.1 kernel + VM', 'XFront.v: hand model of xcmp.hpp Lexer/Parser, tied by correspondence (tree with locations, diagnostics)',
                               'glibc ctype semantics for bytes >= 0x80 as modelled (C locale: not space/alpha/digit); isalpha on a negative char is UB in ISO C',
                               'extraction + ocaml/xfrontdrv.ml', 'harness/xcmp_harness.cpp under ASan+UBSan (g++ 12, -O1); the built xcmp executable; valgrind memcheck']
-    ck.assumptions = ['PROVED: front end only (lexer + parser total, no UB, no fuel exhaustion).  NOT MODELLED: CreateSymbols, ConstProp, OptimiseExpr, CodeGen, '
+    ck.assumptions = ['TRUSTED, NOT PROVED: the real lexer calls std::isspace/isalpha/isdigit/isalnum on a plain (signed) char (xcmp.hpp ~269, 322, 342, 346); for source bytes '
+                      '0x80..0xFE that is undefined behaviour in ISO C; the model XFront.v gives these calls glibc\'s behaviour (C-locale tables indexed from -128: neither space, '
+                      'alpha nor digit).  The model has no branch that produces its UB verdict (UB is unreachable in XFront.v by construction), so C09_total_partial is a '
+                      'totality/fuel theorem: every source ends in a tree or a diagnostic without running out of fuel',
+                      'PROVED: front end only (lexer + parser total, no UB, no fuel exhaustion).  NOT MODELLED: CreateSymbols, ConstProp, OptimiseExpr, CodeGen, '
                       'LowerDirectives, OptimiseDirectives -- for these passes this check is exploration with the real code under ASan/UBSan/valgrind; '
                       'assembly pass: C10_total',
                       'inputs up to a few kilobytes (plus the shipped 100 KB xhexb.x); nesting depth <= 2000; deeper nesting is probed and reported, not judged '
